@@ -388,6 +388,125 @@ void RunSeq(const Case& c, int mode, SeqResult& out) {
   }
 }
 
+// The named aliases (yaclib_std::atomic_int, atomic_ptrdiff_t, ...) must denote the same value types as std's: the type
+// of load() is compared (a differing signedness or width changes every sign- or width-sensitive result).
+struct AliasRow {
+  const char* name;
+  bool same;
+};
+#define VF_ALIAS(name)                                                                  \
+  AliasRow {                                                                            \
+    #name, std::is_same_v<decltype(std::declval<yaclib_std::name&>().load()),           \
+                          decltype(std::declval<std::name&>().load())>                  \
+  }
+const AliasRow kAliases[] = {
+    VF_ALIAS(atomic_bool),
+    VF_ALIAS(atomic_char),
+    VF_ALIAS(atomic_schar),
+    VF_ALIAS(atomic_uchar),
+    VF_ALIAS(atomic_short),
+    VF_ALIAS(atomic_ushort),
+    VF_ALIAS(atomic_int),
+    VF_ALIAS(atomic_uint),
+    VF_ALIAS(atomic_long),
+    VF_ALIAS(atomic_ulong),
+    VF_ALIAS(atomic_llong),
+    VF_ALIAS(atomic_ullong),
+    VF_ALIAS(atomic_char16_t),
+    VF_ALIAS(atomic_char32_t),
+    VF_ALIAS(atomic_wchar_t),
+    VF_ALIAS(atomic_int_least8_t),
+    VF_ALIAS(atomic_uint_least8_t),
+    VF_ALIAS(atomic_int_least16_t),
+    VF_ALIAS(atomic_uint_least16_t),
+    VF_ALIAS(atomic_int_least32_t),
+    VF_ALIAS(atomic_uint_least32_t),
+    VF_ALIAS(atomic_int_least64_t),
+    VF_ALIAS(atomic_uint_least64_t),
+    VF_ALIAS(atomic_int_fast8_t),
+    VF_ALIAS(atomic_uint_fast8_t),
+    VF_ALIAS(atomic_int_fast16_t),
+    VF_ALIAS(atomic_uint_fast16_t),
+    VF_ALIAS(atomic_int_fast32_t),
+    VF_ALIAS(atomic_uint_fast32_t),
+    VF_ALIAS(atomic_int_fast64_t),
+    VF_ALIAS(atomic_uint_fast64_t),
+    VF_ALIAS(atomic_int8_t),
+    VF_ALIAS(atomic_uint8_t),
+    VF_ALIAS(atomic_int16_t),
+    VF_ALIAS(atomic_uint16_t),
+    VF_ALIAS(atomic_int32_t),
+    VF_ALIAS(atomic_uint32_t),
+    VF_ALIAS(atomic_int64_t),
+    VF_ALIAS(atomic_uint64_t),
+    VF_ALIAS(atomic_intptr_t),
+    VF_ALIAS(atomic_uintptr_t),
+    VF_ALIAS(atomic_size_t),
+    VF_ALIAS(atomic_ptrdiff_t),
+    VF_ALIAS(atomic_intmax_t),
+    VF_ALIAS(atomic_uintmax_t)};
+#undef VF_ALIAS
+
+// volatile-qualified yaclib_std::atomic<T> (integral T): the volatile overloads are separate code in both back ends
+template <typename T>
+void RunSeqVolatile(const Case& c, SeqResult& out) {
+  const T init = Operand<T>(c.H(1), c.H(1) * 7 + 1);
+  volatile yaclib_std::atomic<T> a{init};
+  std::atomic<T> m{init};
+  for (std::size_t i = 0; i < c.Records() && out.err == nullptr; ++i) {
+    const int* r = c.Rec(i);
+    const int op = r[0] % kOpN;
+    const T x = Operand<T>(r[1], r[2]);
+    const int ord = r[2] ^ r[4];
+    T ra{}, rm{};
+    switch (op) {
+      case kStore:
+        a.store(x, StoreOrder(ord));
+        m.store(x, StoreOrder(ord));
+        break;
+      case kExchange:
+        ra = a.exchange(x, RmwOrder(ord));
+        rm = m.exchange(x, RmwOrder(ord));
+        break;
+      case kConvert:
+        ra = static_cast<T>(a);
+        rm = static_cast<T>(m);
+        break;
+      case kFetchAdd:
+        ra = a.fetch_add(x, RmwOrder(ord));
+        rm = m.fetch_add(x, RmwOrder(ord));
+        break;
+      case kFetchSub:
+        ra = a.fetch_sub(x, RmwOrder(ord));
+        rm = m.fetch_sub(x, RmwOrder(ord));
+        break;
+      case kFetchAnd:
+        ra = a.fetch_and(x, RmwOrder(ord));
+        rm = m.fetch_and(x, RmwOrder(ord));
+        break;
+      case kFetchOr:
+        ra = a.fetch_or(x, RmwOrder(ord));
+        rm = m.fetch_or(x, RmwOrder(ord));
+        break;
+      case kFetchXor:
+        ra = a.fetch_xor(x, RmwOrder(ord));
+        rm = m.fetch_xor(x, RmwOrder(ord));
+        break;
+      default:  // the remaining volatile overloads do not all instantiate in the pinned tree (see DESIGN.md): plain load
+        ra = a.load(LoadOrder(ord));
+        rm = m.load(LoadOrder(ord));
+    }
+    ++out.ops;
+    if (ra != rm) {
+      out.err = "volatile atomic: return value differs from std::atomic";
+      out.failed_at = static_cast<int>(i);
+    } else if (a.load() != m.load()) {
+      out.err = "volatile atomic: stored value differs from std::atomic after the operation";
+      out.failed_at = static_cast<int>(i);
+    }
+  }
+}
+
 void RunFlag(const Case& c, SeqResult& out) {
   yaclib_std::atomic_flag a{};
   std::atomic_flag m{};
@@ -468,7 +587,7 @@ class AtomicFamily final : public vf::Family {
     return rc::gen::exec([]() {
       Case c;
       c.recw = 5;
-      c.hdr = {vf::Pick(0, kTypeN), vf::Pick(0, 1 << 20), vf::Pick(0, 3)};
+      c.hdr = {vf::Pick(0, kTypeN), vf::Pick(0, 1 << 20), vf::Pick(0, 6)};  // failure mode x (plain | + volatile pass)
       const int n = vf::Pick(1, 49);
       // op selection biased to the operations legal for most types, operands biased to boundary selectors
       for (int i = 0; i < n; ++i) {
@@ -488,7 +607,7 @@ class AtomicFamily final : public vf::Family {
   std::string Describe(const Case& c) const final {
     std::string s = std::string("backend=") + kBackend + " T=" + kTypeName[c.H(0) % kTypeN] +
                     " fail_mode=" + (c.H(2) % 3 == 0 ? "hook-tape" : c.H(2) % 3 == 1 ? "prng-freq-1" : "prng-freq-0") +
-                    " ops=[";
+                    (c.H(2) / 3 % 2 == 1 ? " +volatile-pass" : "") + " ops=[";
     for (std::size_t i = 0; i < c.Records() && i < 48; ++i) {
       s += kOpName[c.Rec(i)[0] % kOpN];
       s += i + 1 < c.Records() ? "," : "";
@@ -549,7 +668,42 @@ class AtomicFamily final : public vf::Family {
       default:
         RunFlag(c, r);
     }
+    if (r.err == nullptr && c.H(2) / 3 % 2 == 1) {
+      switch (type) {
+        case 1:
+          RunSeqVolatile<std::int8_t>(c, r);
+          break;
+        case 2:
+          RunSeqVolatile<std::uint8_t>(c, r);
+          break;
+        case 3:
+          RunSeqVolatile<std::int16_t>(c, r);
+          break;
+        case 4:
+          RunSeqVolatile<std::uint16_t>(c, r);
+          break;
+        case 5:
+          RunSeqVolatile<std::int32_t>(c, r);
+          break;
+        case 6:
+          RunSeqVolatile<std::uint32_t>(c, r);
+          break;
+        case 7:
+          RunSeqVolatile<std::int64_t>(c, r);
+          break;
+        case 8:
+          RunSeqVolatile<std::uint64_t>(c, r);
+          break;
+        default:
+          break;
+      }
+    }
     yaclib::verif::SetHook(nullptr);
+    for (const auto& row : kAliases) {
+      if (!row.same && r.err == nullptr) {
+        v.Fail(std::string("yaclib_std::") + row.name + " has another value type than std::" + row.name);
+      }
+    }
     if (r.err != nullptr) {
       v.Fail(std::string(r.err) + " [T=" + kTypeName[type] + ", op #" + std::to_string(r.failed_at) + " " +
              (r.failed_at >= 0 && static_cast<std::size_t>(r.failed_at) < c.Records()
